@@ -64,7 +64,7 @@ pub fn run_c04(cx: &Ctx) -> i32 {
     // significant again: `#`, blanks and groups in it count)
     for raw in [
         "(?x)(a)(?-x)#(b)", "(?x) (a) (?-x) (b)", "(?x)a(?-x) b", "(?x)a (?-x)#b", "(?x: a )#(b)", "(?x)(a)(?-x)#(b)\\b", "(a)(?x) # c\n(?-x)#(b)", "(?x)a # c\n(?-x)#", "(?x)(?-x) (a)\\b", "(?x)a(?-x:#(b)) (a)",
-        "(?U)a*+b", "(?U)a*?b", "(?U:a+)a", "(?U)(a*)(a*)\\b", "(?U)a{1,2}b?\\b", "(?s).(?-s).", "(?m)^a$(?-m)^", "(?m:^a$)\\b.(?-m:$)",
+        "(?U)a*?b", "(?U:a+)a", "(?U)(a*)(a*)\\b", "(?U)a{1,2}b?\\b", "(?s).(?-s).", "(?m)^a$(?-m)^", "(?m:^a$)\\b.(?-m:$)",
     ] {
         scoped.push(Node::Raw(raw.to_string(), 2));
     }
